@@ -55,33 +55,50 @@ theorem scanIncFileB_close (banned : List Kind) (fs : FS) (fuel : Nat) (stack : 
         | .error e => .error (.ctx e)
         | .ok c => scanIncFileB banned fs fuel stack cur (pos + 1) rest { st' with ctx := c } := rfl
 
+/-- the INCLUDE token: the directive written before it is placed first (repair F42), then the ban is checked, then the
+name, the target and the include stack -/
 theorem scanIncFileB_incl (banned : List Kind) (fs : FS) (fuel : Nat) (stack : List (Nat × Nat)) (cur pos f : Nat)
     (valid : Bool) (rest : List FTok) (st : PScan) :
     scanIncFileB banned fs (fuel + 1) stack cur pos (.incl f valid :: rest) st =
-      if banned.contains Kind.Include then .error (.notAllowed cur pos)
-      else if !valid then .error (.inc (.badName cur pos))
-      else match fs.get? f with
-        | none => .error (.inc (.missing cur pos))
-        | some .directory => .error (.inc (.isDirectory cur pos))
-        | some (.file toks) =>
-          if stack.any (·.1 == cur) then .error (.inc (.recursion cur pos))
-          else match scanIncFileB banned fs fuel ((cur, pos) :: stack) f 0 toks st with
-            | .error e => .error e
-            | .ok st' => scanIncFileB banned fs fuel stack cur (pos + 1) rest st' := rfl
+      match flushPendingB st with
+      | .error e => .error e
+      | .ok stf =>
+        if banned.contains Kind.Include then .error (.notAllowed cur pos)
+        else if !valid then .error (.inc (.badName cur pos))
+        else match fs.get? f with
+          | none => .error (.inc (.missing cur pos))
+          | some .directory => .error (.inc (.isDirectory cur pos))
+          | some (.file toks) =>
+            if stack.any (·.1 == cur) then .error (.inc (.recursion cur pos))
+            else match scanIncFileB banned fs fuel ((cur, pos) :: stack) f 0 toks stf with
+              | .error e => .error e
+              | .ok st' => scanIncFileB banned fs fuel stack cur (pos + 1) rest st' := rfl
+
+/-- a banned INCLUDE: the directive written before it is placed, then it is refused -/
+theorem scanIncFileB_incl_banned (banned : List Kind) (hb : banned.contains Kind.Include = true) (fs : FS)
+    (fuel : Nat) (stack : List (Nat × Nat)) (cur pos f : Nat) (valid : Bool) (rest : List FTok) (st : PScan) :
+    scanIncFileB banned fs (fuel + 1) stack cur pos (.incl f valid :: rest) st =
+      match flushPendingB st with
+      | .error e => .error e
+      | .ok _ => .error (.notAllowed cur pos) := by
+  rw [scanIncFileB_incl, hb]; rfl
 
 /-- an INCLUDE that is not banned: as without bans -/
 theorem scanIncFileB_incl_unbanned (banned : List Kind) (hb : banned.contains Kind.Include = false) (fs : FS)
     (fuel : Nat) (stack : List (Nat × Nat)) (cur pos f : Nat) (valid : Bool) (rest : List FTok) (st : PScan) :
     scanIncFileB banned fs (fuel + 1) stack cur pos (.incl f valid :: rest) st =
-      if !valid then .error (.inc (.badName cur pos))
-      else match fs.get? f with
-        | none => .error (.inc (.missing cur pos))
-        | some .directory => .error (.inc (.isDirectory cur pos))
-        | some (.file toks) =>
-          if stack.any (·.1 == cur) then .error (.inc (.recursion cur pos))
-          else match scanIncFileB banned fs fuel ((cur, pos) :: stack) f 0 toks st with
-            | .error e => .error e
-            | .ok st' => scanIncFileB banned fs fuel stack cur (pos + 1) rest st' := by
+      match flushPendingB st with
+      | .error e => .error e
+      | .ok stf =>
+        if !valid then .error (.inc (.badName cur pos))
+        else match fs.get? f with
+          | none => .error (.inc (.missing cur pos))
+          | some .directory => .error (.inc (.isDirectory cur pos))
+          | some (.file toks) =>
+            if stack.any (·.1 == cur) then .error (.inc (.recursion cur pos))
+            else match scanIncFileB banned fs fuel ((cur, pos) :: stack) f 0 toks stf with
+              | .error e => .error e
+              | .ok st' => scanIncFileB banned fs fuel stack cur (pos + 1) rest st' := by
   rw [scanIncFileB_incl, hb]; rfl
 
 /-! ### the scan with bans against the scan without -/
@@ -144,9 +161,17 @@ theorem scanIncFileB_cases (banned : List Kind) (fs : FS) :
           | ok c => exact ih _ _ _ _ _
       | incl f valid =>
         cases hb : banned.contains Kind.Include with
-        | true => right; rw [scanIncFileB_incl, hb]; exact ⟨cur, pos, rfl⟩
+        | true =>
+          rw [scanIncFileB_incl_banned banned hb, scanIncFile_incl, flushPendingB_eq]
+          cases flushPending st with
+          | error e => left; rfl
+          | ok stf => right; exact ⟨cur, pos, rfl⟩
         | false =>
-          rw [scanIncFileB_incl_unbanned banned hb, scanIncFile_incl]
+          rw [scanIncFileB_incl_unbanned banned hb, scanIncFile_incl, flushPendingB_eq]
+          cases flushPending st with
+          | error e => left; rfl
+          | ok stf =>
+          simp only [liftB_ok]
           cases valid with
           | false => left; rfl
           | true =>
@@ -160,9 +185,9 @@ theorem scanIncFileB_cases (banned : List Kind) (fs : FS) :
                 | true => left; rfl
                 | false =>
                   simp only [Bool.not_true, Bool.false_eq_true, ↓reduceIte]
-                  rcases ih ((cur, pos) :: stack) f 0 body st with hin | ⟨c, p, hin⟩
+                  rcases ih ((cur, pos) :: stack) f 0 body stf with hin | ⟨c, p, hin⟩
                   · rw [hin]
-                    cases scanIncFile fs fuel ((cur, pos) :: stack) f 0 body st with
+                    cases scanIncFile fs fuel ((cur, pos) :: stack) f 0 body stf with
                     | error e => left; rfl
                     | ok st' => simp only [liftB_ok]; exact ih _ _ _ _ _
                   · right; rw [hin]; exact ⟨c, p, rfl⟩
@@ -212,7 +237,11 @@ theorem scanIncFileB_clean (banned : List Kind) (fs : FS)
           rcases hc.2 with h | h
           · exact h
           · exact absurd (List.mem_cons_self ..) (h f valid)
-        rw [scanIncFileB_incl_unbanned banned hb, scanIncFile_incl]
+        rw [scanIncFileB_incl_unbanned banned hb, scanIncFile_incl, flushPendingB_eq]
+        cases flushPending st with
+        | error e => rfl
+        | ok stf =>
+        simp only [liftB_ok]
         cases valid with
         | false => rfl
         | true =>
@@ -226,8 +255,8 @@ theorem scanIncFileB_clean (banned : List Kind) (fs : FS)
               | true => rfl
               | false =>
                 simp only [Bool.not_true, Bool.false_eq_true, ↓reduceIte]
-                rw [ih ((cur, pos) :: stack) f 0 body st (hfs f body hg)]
-                cases scanIncFile fs fuel ((cur, pos) :: stack) f 0 body st with
+                rw [ih ((cur, pos) :: stack) f 0 body stf (hfs f body hg)]
+                cases scanIncFile fs fuel ((cur, pos) :: stack) f 0 body stf with
                 | error e => rfl
                 | ok st' => simp only [liftB_ok]; exact ih _ _ _ _ _ hc'
 
@@ -262,15 +291,31 @@ theorem incl_head_banned_not_ok (banned : List Kind) (hb : banned.contains Kind.
     scanIncFileB banned fs fuel stack cur pos (FTok.incl f v :: rest) st ≠ .ok r := by
   cases fuel with
   | zero => rw [scanIncFileB_zero]; intro h; cases h
-  | succ fuel => rw [scanIncFileB_incl, hb]; intro h; cases h
+  | succ fuel =>
+    rw [scanIncFileB_incl_banned banned hb]
+    cases flushPendingB st with
+    | error e => intro h; cases h
+    | ok stf => intro h; cases h
 
-/-- an accepted INCLUDE: it is not banned, names an existing regular file, and that file was accepted -/
+/-- a banned INCLUDE, in terms of the placement without bans: the context error of the directive written before it,
+or the refusal at the INCLUDE -/
+theorem incl_head_banned (banned : List Kind) (hb : banned.contains Kind.Include = true) (fs : FS)
+    (fuel : Nat) (stack : List (Nat × Nat)) (cur pos f : Nat) (valid : Bool) (rest : List FTok) (st : PScan) :
+    scanIncFileB banned fs (fuel + 1) stack cur pos (FTok.incl f valid :: rest) st =
+      match flushPending st with
+      | .error e => .error e.toB
+      | .ok _ => .error (.notAllowed cur pos) := by
+  rw [scanIncFileB_incl_banned banned hb, flushPendingB_eq]
+  cases flushPending st <;> rfl
+
+/-- an accepted INCLUDE: the directive written before it was placed (giving `stf`), it is not banned, names an existing
+regular file, and that file was accepted -/
 theorem incl_head_ok (banned : List Kind) (fs : FS) (fuel : Nat) (stack : List (Nat × Nat)) (cur pos f : Nat)
     (v : Bool) (rest : List FTok) (st r : PScan)
     (h : scanIncFileB banned fs fuel stack cur pos (FTok.incl f v :: rest) st = .ok r) :
-    ∃ n body st', fuel = n + 1 ∧ banned.contains Kind.Include = false ∧ v = true ∧
+    ∃ n body stf st', fuel = n + 1 ∧ flushPendingB st = .ok stf ∧ banned.contains Kind.Include = false ∧ v = true ∧
       fs.get? f = some (.file body) ∧ stack.any (·.1 == cur) = false ∧
-      scanIncFileB banned fs n ((cur, pos) :: stack) f 0 body st = .ok st' ∧
+      scanIncFileB banned fs n ((cur, pos) :: stack) f 0 body stf = .ok st' ∧
       scanIncFileB banned fs n stack cur (pos + 1) rest st' = .ok r := by
   cases fuel with
   | zero => rw [scanIncFileB_zero] at h; cases h
@@ -279,6 +324,10 @@ theorem incl_head_ok (banned : List Kind) (fs : FS) (fuel : Nat) (stack : List (
     | true => exact absurd h (incl_head_banned_not_ok banned hb fs _ stack cur pos f v rest st r)
     | false =>
       rw [scanIncFileB_incl_unbanned banned hb] at h
+      cases hfl : flushPendingB st with
+      | error e => simp [hfl] at h
+      | ok stf =>
+      simp only [hfl] at h
       cases v with
       | false => simp at h
       | true =>
@@ -293,11 +342,11 @@ theorem incl_head_ok (banned : List Kind) (fs : FS) (fuel : Nat) (stack : List (
             | true => simp [hs] at h
             | false =>
               simp only [hs] at h
-              cases hi : scanIncFileB banned fs n ((cur, pos) :: stack) f 0 body st with
+              cases hi : scanIncFileB banned fs n ((cur, pos) :: stack) f 0 body stf with
               | error e => simp [hi] at h
               | ok st' =>
                 simp only [hi] at h
-                exact ⟨n, body, st', rfl, rfl, rfl, rfl, rfl, hi, by simpa using h⟩
+                exact ⟨n, body, stf, st', rfl, rfl, rfl, rfl, rfl, rfl, hi, by simpa using h⟩
 
 /-- success of a scan implies success of the scan of every suffix, at its position, from some state -/
 theorem ok_suffixB (banned : List Kind) (fs : FS) (stack : List (Nat × Nat)) (cur : Nat) (rest : List FTok)
@@ -341,7 +390,7 @@ theorem ok_suffixB (banned : List Kind) (fs : FS) (stack : List (Nat × Nat)) (c
           | error e => simp [hc] at h
           | ok c => simp only [hc] at h; exact ih _ _ _ h
     | incl f valid =>
-      obtain ⟨n, body, st', _, _, _, _, _, _, h'⟩ := incl_head_ok banned fs fuel stack cur pos f valid _ st r h
+      obtain ⟨n, body, stf, st', _, _, _, _, _, _, _, h'⟩ := incl_head_ok banned fs fuel stack cur pos f valid _ st r h
       exact ih _ _ _ h'
 
 /-- an accepted token list is clean -/
@@ -367,7 +416,8 @@ theorem ok_clean (banned : List Kind) (fs : FS) (fuel : Nat) (stack : List (Nat 
 
 /-! ### INCLUDE banned: no file system, no fuel -/
 
-/-- the scan of one file when INCLUDE is banned -/
+/-- the scan of one file when INCLUDE is banned (at an INCLUDE the directive written before it is placed, then the
+INCLUDE is refused: no file system in sight) -/
 def scanFlatB (banned : List Kind) (stack : List (Nat × Nat)) (cur : Nat) : Nat → List FTok → PScan → Except ProjErrB PScan
   | _, [], st =>
     match flushPendingB st with
@@ -388,7 +438,10 @@ def scanFlatB (banned : List Kind) (stack : List (Nat × Nat)) (cur : Nat) : Nat
       match closeExplicit st'.ctx.frames st'.ctx.roots with
       | .error e => .error (.ctx e)
       | .ok c => scanFlatB banned stack cur (pos + 1) rest { st' with ctx := c }
-  | pos, .incl _ _ :: _, _ => .error (.notAllowed cur pos)
+  | pos, .incl _ _ :: _, st =>
+    match flushPendingB st with
+    | .error e => .error e
+    | .ok _ => .error (.notAllowed cur pos)
 
 /-- with INCLUDE banned, and more fuel than tokens, the scan is `scanFlatB`: neither the file system nor the amount of
 fuel matter -/
@@ -424,7 +477,7 @@ theorem scanIncFileB_flat (banned : List Kind) (hb : banned.contains Kind.Includ
           cases closeExplicit st'.ctx.frames st'.ctx.roots with
           | error e => rfl
           | ok c => exact ih fuel (pos + 1) _ hf'
-      | incl f v => rw [scanIncFileB_incl, hb, scanFlatB]; rfl
+      | incl f v => rw [scanIncFileB_incl_banned banned hb, scanFlatB]
 
 theorem project_fuel_gt {fs : FS} {root : Nat} {toks : List FTok} (h : fs.get? root = some (.file toks)) :
     toks.length < (fs.length + 2) * (fsSize fs + 2) + 2 := by
@@ -564,9 +617,10 @@ theorem scanIncFileB_StAll (banned : List Kind) (fs : FS) (P : Dir → Prop)
               · cases hd'
             · intro d' hd'; simp only [] at hd'; rw [hp'] at hd'; cases hd'
       | incl f v =>
-        obtain ⟨n, body, st', hn, _, _, _, _, hi, h'⟩ := incl_head_ok banned fs _ stack cur pos f v rest st r h
+        obtain ⟨n, body, stf, st', hn, hfl, _, _, _, _, hi, h'⟩ := incl_head_ok banned fs _ stack cur pos f v rest st r h
         cases hn
-        have ⟨hs', _, _⟩ := ih _ _ _ _ _ _ hi hs
+        have ⟨hsf, _⟩ := flush_StAll (flushB_ok hfl) hs
+        have ⟨hs', _, _⟩ := ih _ _ _ _ _ _ hi hsf
         exact ih _ _ _ _ _ _ h' hs'
 
 theorem StAll_init (P : Dir → Prop) : StAll P {} :=
@@ -621,10 +675,10 @@ theorem live_visited (banned : List Kind) (fs : FS) (root : Nat) (toks0 : List F
     rw [hsplit] at hscan
     obtain ⟨fuel', st', h'⟩ := ok_suffixB banned fs stack cur _ r _ fuel 0 st hscan
     rw [hlen, Nat.zero_add] at h'
-    obtain ⟨n, body', st'', _, _, _, hg, _, hi, _⟩ := incl_head_ok banned fs fuel' stack cur pos f true _ st' r h'
+    obtain ⟨n, body', stf, st'', _, _, _, _, hg, _, hi, _⟩ := incl_head_ok banned fs fuel' stack cur pos f true _ st' r h'
     rw [hf] at hg
     cases hg
-    exact ⟨body, n, st', st'', hf, hi⟩
+    exact ⟨body, n, stf, st'', hf, hi⟩
 
 /-! ### a `notAllowed` error points at a banned directive of a file that is read -/
 
@@ -698,12 +752,25 @@ theorem notAllowed_sound (banned : List Kind) (fs : FS) (root : Nat) :
       | incl f v =>
         cases hb : banned.contains Kind.Include with
         | true =>
-          rw [scanIncFileB_incl, hb] at h
-          simp only [↓reduceIte] at h
-          cases h
-          exact ⟨stack, all, hl, hc, Or.inr ⟨f, v, hpos, hb⟩⟩
+          rw [scanIncFileB_incl_banned banned hb] at h
+          cases hfl : flushPendingB st with
+          | error e =>
+            simp only [hfl] at h
+            cases h
+            exact absurd hfl (flushB_not_notAllowed st c p)
+          | ok stf =>
+            simp only [hfl] at h
+            cases h
+            exact ⟨stack, all, hl, hc, Or.inr ⟨f, v, hpos, hb⟩⟩
         | false =>
           rw [scanIncFileB_incl_unbanned banned hb] at h
+          cases hfl : flushPendingB st with
+          | error e =>
+            simp only [hfl] at h
+            cases h
+            exact absurd hfl (flushB_not_notAllowed st c p)
+          | ok stf =>
+          simp only [hfl] at h
           cases v with
           | false => simp at h
           | true =>
@@ -718,7 +785,7 @@ theorem notAllowed_sound (banned : List Kind) (fs : FS) (root : Nat) :
                 | true => simp [hs] at h
                 | false =>
                   simp only [hs] at h
-                  cases hi : scanIncFileB banned fs fuel ((cur, pos) :: stack) f 0 body st with
+                  cases hi : scanIncFileB banned fs fuel ((cur, pos) :: stack) f 0 body stf with
                   | error e =>
                     simp only [hi] at h
                     have he : e = .notAllowed c p := by simpa using h
@@ -779,6 +846,10 @@ theorem scanFlatB_traces (banned : List Kind) (stack : List (Nat × Nat)) (cur :
           rcases ih _ _ _ h e he with h1 | h1
           · simp only [] at h1; rw [flush_traces (flushB_ok hfl)] at h1; exact Or.inl h1
           · exact Or.inr h1
-    | incl f v => rw [scanFlatB] at h; cases h
+    | incl f v =>
+      rw [scanFlatB] at h
+      cases hfl : flushPendingB st with
+      | error e => simp [hfl] at h
+      | ok st' => simp [hfl] at h
 
 end JSight.C18I
